@@ -13,6 +13,8 @@ import time
 
 VERIF = os.path.dirname(os.path.dirname(os.path.abspath(__file__)))
 REPO = os.environ.get('VERIF_REPO', '/repo')
+# where evidence/ and replays/ are written (the selftest redirects it)
+OUT = os.environ.get('VERIF_OUT') or VERIF
 LIB = os.path.join(os.path.realpath(REPO), 'oslo_policy') + os.sep
 DEFAULT_SEED = 20261001
 
@@ -197,7 +199,7 @@ def write_json(path, obj):
 
 
 def replay_path(prop, tag):
-    d = os.path.join(VERIF, 'replays')
+    d = os.path.join(OUT, 'replays')
     os.makedirs(d, exist_ok=True)
     return os.path.join(d, '%s_%s.json' % (prop, tag))
 
@@ -211,7 +213,7 @@ def write_evidence(prop, tier, seed, level, coverage, wall_s, violations,
     }
     if extra:
         ev.update(extra)
-    write_json(os.path.join(VERIF, 'evidence', prop + '.json'), ev)
+    write_json(os.path.join(OUT, 'evidence', prop + '.json'), ev)
     return ev
 
 
